@@ -92,6 +92,7 @@ int main(int argc, char **argv) {
     else if (strcmp(dom, "p09") == 0) { dom_p09(); dir_p09(); }
     else if (strcmp(dom, "p09u") == 0) dom_p09u();
     else if (strcmp(dom, "p21") == 0) dom_p21();
+    else if (strcmp(dom, "pline") == 0) dom_pline();
     else { fprintf(stderr, "unknown domain %s\n", dom); return 2; }
     fflush(stdout);
     return 0;
